@@ -11,6 +11,7 @@ a proof).  Determinism is by construction: every model routine is a function of 
 secret, mask words, error integers).
 -/
 import Poulpy.Props.C19
+import Poulpy.Lemmas.SamplingL
 
 namespace C06
 open CoreEnc
@@ -41,7 +42,7 @@ theorem mask_noninterference (bits b n size kxe rank : Nat) (xa : List Nat)
       | some bd =>
         simp only [hf, Option.some.injEq, Prod.mk.injEq] at h
         obtain ⟨_, rfl, rfl⟩ := h
-        exact C19.loop_masks_eq_drawMasks bits b n size pt rank sk 1 xa _ c0 ms0 xa0 hl
+        exact CoreEnc.loop_masks_eq_drawMasks bits b n size pt rank sk 1 xa _ c0 ms0 xa0 hl
   have h1 := key pt sk e body ms r h
   have h2 := key pt' sk' e' body' ms' r' h'
   rw [h1] at h2
@@ -73,6 +74,10 @@ theorem glwe_mask_noninterference (bits b k n size kxe rank : Nat) (xa : List Na
           have := mask_noninterference bits b n size kxe rank xa _ _ sk sk' e e' bd bd' ms ms' rr rr' hs hs'
           simpa using this
 
+example : ((Core.glweEncryptSkS 64 3 6 2 2 5 1 (some [[1, 2]]) [[1, -1]] [9, 1, 7, 3, 5] [1, -1]).map (·.1.cols.drop 1)
+    = (Core.glweEncryptSkS 64 3 6 2 2 5 1 none [[0, 1]] [9, 1, 7, 3, 5] [2, 0]).map (·.1.cols.drop 1))
+    ∧ (Core.glweEncryptSkS 64 3 6 2 2 5 1 (some [[1, 2]]) [[1, -1]] [9, 1, 7, 3, 5] [1, -1]).isSome := by decide
+
 /-- **changing the error seed changes only the body** (same plaintext, secret and mask stream) -/
 theorem body_only_error_seed (bits b n size kxe rank : Nat) (xa : List Nat) (pt : Option (Col × Nat)) (sk : List Poly) (e e' : Poly)
     (body body' : Col) (ms ms' : List Col) (r r' : List Nat)
@@ -80,6 +85,11 @@ theorem body_only_error_seed (bits b n size kxe rank : Nat) (xa : List Nat) (pt 
     (h' : Core.encryptSkStream bits b n size kxe rank pt sk xa e' = some (body', ms', r')) :
     ms = ms' ∧ r = r' :=
   mask_noninterference bits b n size kxe rank xa pt pt sk sk e e' body body' ms ms' r r' h h'
+
+example : ((Core.encryptSkStream 64 3 2 2 5 1 none [[1, -1]] [9, 1, 7, 3, 5] [1, -1]).map (·.2)
+    = (Core.encryptSkStream 64 3 2 2 5 1 none [[1, -1]] [9, 1, 7, 3, 5] [3, 3]).map (·.2))
+    ∧ (Core.encryptSkStream 64 3 2 2 5 1 none [[1, -1]] [9, 1, 7, 3, 5] [1, -1]).map (·.1)
+      ≠ (Core.encryptSkStream 64 3 2 2 5 1 none [[1, -1]] [9, 1, 7, 3, 5] [3, 3]).map (·.1) := by decide
 
 /-- non-vacuity: two encryptions with different plaintexts (in different columns), secrets and errors -/
 example : ((Core.encryptSkStream 64 3 2 2 5 2 (some ([[1, 0], [0, 0]], 1)) [[1, -1], [0, 1]] [1, 2, 3, 4, 5, 6, 7, 0, 1, 2, 3, 4, 9, 8, 7, 6] [1, -1]).map (·.2.1)
@@ -89,16 +99,6 @@ example : ((Core.encryptSkStream 64 3 2 2 5 2 (some ([[1, 0], [0, 0]], 1)) [[1, 
 
 /-! ### uniform digits from uniform words -/
 
-theorem pow2k_eq {b : Nat} (hb : b ≤ 63) : Sampling.pow2k b = 2 ^ b := by
-  unfold Sampling.pow2k
-  rw [Nat.mod_eq_of_lt (by omega : b < 64), Nat.shiftLeft_eq, Nat.one_mul]
-  exact Nat.mod_eq_of_lt (Nat.pow_lt_pow_right (by norm_num) (by omega))
-
-theorem maskOf_and {b : Nat} (hb : b ≤ 63) (u : Nat) : u &&& Sampling.maskOf b = u % 2 ^ b := by
-  unfold Sampling.maskOf
-  rw [pow2k_eq hb]
-  exact Nat.and_two_pow_sub_one_eq_mod u b
-
 /-- `znx_fill_uniform_ref` **never rejects**: with `mask = max − 1` the first word drawn is accepted -/
 theorem fill_uniform_never_rejects {b : Nat} (hb : b ≤ 63) (u : Nat) (rest : List Nat) :
     Sampling.nextU64n (Sampling.pow2k b) (Sampling.maskOf b) (u :: rest) = some (u % 2 ^ b, rest) := by
@@ -106,28 +106,8 @@ theorem fill_uniform_never_rejects {b : Nat} (hb : b ≤ 63) (u : Nat) (rest : L
   simp only [maskOf_and hb, pow2k_eq hb]
   rw [if_pos (Nat.mod_lt _ (by positivity))]
 
-/-- the digit written for a raw word `u`: the balanced residue `(u mod 2^b) − 2^(b−1)` -/
-theorem digitOfWord_eq {b : Nat} (hb1 : 1 ≤ b) (hb : b ≤ 63) (u : Nat) :
-    Sampling.digitOfWord b u = ((u % 2 ^ b : Nat) : Int) - 2 ^ (b - 1) := by
-  unfold Sampling.digitOfWord Sampling.digitOf Sampling.halfOf
-  rw [maskOf_and hb, pow2k_eq hb, Nat.shiftRight_eq_div_pow, pow_one]
-  have hhalf : 2 ^ b / 2 = 2 ^ (b - 1) := by
-    have : b = (b - 1) + 1 := by omega
-    conv_lhs => rw [this, pow_succ]
-    simp
-  rw [hhalf]
-  have hlt : u % 2 ^ b < 2 ^ b := Nat.mod_lt _ (by positivity)
-  have hle : (2 : Nat) ^ b ≤ 2 ^ 63 := Nat.pow_le_pow_right (by norm_num) hb
-  have hhl : (2 : Nat) ^ (b - 1) ≤ 2 ^ 62 := Nat.pow_le_pow_right (by norm_num) (by omega)
-  have h1 : ((u % 2 ^ b : Nat) : Int) < 2 ^ 63 := by exact_mod_cast lt_of_lt_of_le hlt hle
-  have h0 : (0 : Int) ≤ ((u % 2 ^ b : Nat) : Int) := by positivity
-  have h2 : ((2 ^ (b - 1) : Nat) : Int) ≤ 2 ^ 62 := by exact_mod_cast hhl
-  have h3 : (0 : Int) ≤ ((2 ^ (b - 1) : Nat) : Int) := by positivity
-  have hin : w64 ((u % 2 ^ b : Nat) : Int) = ((u % 2 ^ b : Nat) : Int) := w64_id (by rw [abs_lt]; constructor <;> linarith)
-  rw [hin]
-  rw [w64_id (by rw [abs_lt]; constructor <;> linarith)]
-  push_cast
-  ring
+example : Sampling.nextU64n (Sampling.pow2k 7) (Sampling.maskOf 7) [0xFFFF, 3] = some (0x7F, [3]) := by
+  rw [fill_uniform_never_rejects (by norm_num)]; norm_num
 
 /-- **counting theorem**: for every `1 ≤ b ≤ 63` the map from a raw 64-bit word to the digit
 `znx_fill_uniform_ref` writes is exactly `2^(64−b)`-to-one onto `[−2^(b−1), 2^(b−1))`:
@@ -173,6 +153,9 @@ theorem fill_uniform_counting {b : Nat} (hb1 : 1 ≤ b) (hb : b ≤ 63) :
     rw [Nat.div_lt_iff_lt_mul (by positivity)]
     rw [← hsplit]; exact hu
 
+example : Sampling.digitOfWord 7 (5 * 2 ^ 7 + ((-3 : Int) + 2 ^ (7 - 1)).toNat) = -3 :=
+  ((fill_uniform_counting (b := 7) (by norm_num) (by norm_num)).2.1 5 (-3) (by norm_num) (by norm_num) (by norm_num)).2
+
 example : Sampling.digitOfWord 7 0xDEADBEEF12345678 = 0x78 - 64 := by decide
 
 /-- at `base2k = 64` the shift `1 << 64` wraps (overflow checks off): every digit is 0 — outside the
@@ -180,6 +163,8 @@ supported range, recorded so that nobody reads the counting theorem as covering 
 theorem fill_uniform_b64_degenerate (u : Nat) : Sampling.digitOfWord 64 u = 0 := by
   unfold Sampling.digitOfWord Sampling.digitOf Sampling.halfOf Sampling.maskOf Sampling.pow2k
   simp [w64]
+
+example : Sampling.digitOfWord 64 0xDEADBEEF12345678 = 0 := fill_uniform_b64_degenerate _
 
 /-! ### where the error goes -/
 
